@@ -90,8 +90,18 @@ fn case_fn(case: &mut Case) -> CaseResult {
     let cfg_ok = abi::load_config(&cfg_text);
     case.label(if cfg_ok { "config-accepted" } else { "config-rejected" });
     let root = PATHS[0];
+    // bundlers hand over absolute resource paths, which need not be normalised
+    let root_name = match mch.below(5) {
+        0 => "/p/ops/../ops/main.graphql",
+        1 => "/p/ops/./main.graphql",
+        2 => "/p/./ops/sub/../main.graphql",
+        _ => root,
+    };
+    if root_name != root {
+        case.label("root-name-not-normalised");
+    }
     let mut emitted = false;
-    match abi::initiate_task(root, &files[root]) {
+    match abi::initiate_task(root_name, &files[root]) {
         Err(_) => case.label("initiate-rejected"),
         Ok(id) => {
             let mut rounds = 0;
